@@ -67,6 +67,24 @@ Theorem C05_model_frames_are_conformant_and_truthful : forall cfg d p dictID pbs
 Proof. exact lz_model_conformant. Qed.
 Print Assumptions C05_model_frames_are_conformant_and_truthful.
 
+(* ---- round 2: more of what acceptance by R entails (coq/Codec/C05LastBlock.v): the rules the driver checks on the
+        trace of every emitted frame are consequences of acceptance ---- *)
+From ZV.Codec Require Import C05LastBlock.
+
+(* the last-block flag is set exactly once, on the final block; a frame has at least one block *)
+Theorem C05_last_block_flag_exactly_once : forall cfg d f out t rest,
+  decode_frame cfg d f = Ok (out, t, rest) ->
+  exists pre b, ft_blocks t = pre ++ [b] /\ bt_last b = true /\ Forall (fun b => bt_last b = false) pre.
+Proof. exact accepted_frame_last_block. Qed.
+Print Assumptions C05_last_block_flag_exactly_once.
+
+(* the Block_Size field of every block is within Block_Maximum_Size = min(Window_Size, 128 KiB) (and maxBlockSize) *)
+Theorem C05_block_size_fields_within_limit : forall cfg d f out t rest,
+  decode_frame cfg d f = Ok (out, t, rest) ->
+  Forall (fun b => bt_csize b <= N.min (N.min (fh_window (ft_header t)) BLOCK_MAX) (c_block_max cfg)) (ft_blocks t).
+Proof. exact accepted_frame_block_size_fields. Qed.
+Print Assumptions C05_block_size_fields_within_limit.
+
 (* ---- round 2: the window rule follows from the compressor's window mechanism (coq/Codec/C05Window.v).
         The three functions every match finder relies on - ZSTD_checkDictValidity, ZSTD_window_enforceMaxDist,
         ZSTD_getLowestMatchIndex - are the models of coq/Index/Window.v (U32 arithmetic written out; tied to the real
